@@ -253,6 +253,11 @@ def plan(tier, seed):
                         P.append({'kind': 'neutral', 'fam': fam1, 'extra': {}})
                         if em == 2:
                             P.append({'kind': 'neutral', 'fam': fam1, 'extra': {'Total Capital Cost': '40'}})
+    # a declining field whose net generation turns negative after two years: a neutral element must stay neutral there too
+    declining = {'Drawdown Parameter': '0.15', 'Productivity Index': '1', 'Injectivity Index': '1'}
+    for em in F.ECON_MODELS:
+        for pair in ((1, 1), (1, 4), (31, 2), (52, 1)):
+            P.append({'kind': 'neutral', 'fam': {'econ': em, 'enduse': pair[0], 'plant': pair[1], 'res': 4, 'shape': [6, 2, 1]}, 'extra': dict(declining)})
     # closed-loop (SBT) economics: same relations
     for fam in F.sbt_grid(configs=(5,) if tier == 'quick' else (1, 5)):
         pair = (fam['enduse'], fam['plant'])
@@ -270,6 +275,6 @@ def run(tier, seed, budget=None):
         rule=('run pairs on the real pipeline: (a) 3 economic models x 32 end-use/plant pairs with every cost user-fixed, all cost inputs x k, '
               'k in {0.5,2,3}, with/without redrilling; (b) six price moves per product (sold and not sold) - levelized costs bit-identical, NPV '
               'strictly in the direction of the price series when the product is sold; (c) end-use efficiency halved for direct-use heat, three '
-              'pairs, three cost settings; (d) seven neutral elements (zero add-on, zero-rate ITC, zero grant/incentive/fees/relief) - all '
+              'pairs, three cost settings; (d) seven neutral elements (zero add-on, zero-rate ITC, zero grant/incentive/fees/relief), also on a declining field whose net generation turns negative - all '
               'outputs and every report line outside the extended block identical. Distinct by (family, relation, variant)'),
         assumptions=['price direction is derived from price_ref applied to the two inputs', 'neutral add-on compared with one construction year'])
